@@ -1,0 +1,30 @@
+//go:build verif
+
+package assert
+
+// Contracts for the deductive verifier in /verif (comment-only file; see /verif/DESIGN.md).
+
+//@ type withAssertionFailure invariant self.cause != nil
+//@ method (*withAssertionFailure).Error
+//@   props C10
+//@   ensures result == msg(self.cause)
+//@ method (*withAssertionFailure).Cause
+//@   props C07 C10 C14
+//@   ensures result == self.cause
+//@ method (*withAssertionFailure).Unwrap
+//@   props C07 C10 C14
+//@   ensures result == self.cause
+
+//@ func WithAssertionFailure
+//@   props C10 C07
+//@   ensures err == nil ==> result == nil
+//@   ensures err != nil ==> typeis(result, *withAssertionFailure) && result.(*withAssertionFailure).cause == err
+
+//@ func decodeAssertFailure
+//@   props C05 C01 C11
+//@   requires cause != nil
+//@   ensures typeis(result, *withAssertionFailure) && result.(*withAssertionFailure).cause == cause
+
+//@ func IsAssertionFailure
+//@   props C07 C11
+//@   ensures result == typeis(err, *withAssertionFailure)
